@@ -15,7 +15,8 @@ PROP = {
             "role), compared with grun of the model on the same interleaving. Head-of-line scenario: one connection stalled mid-frame, one "
             "connection's handler call blocked on a channel, a third connection issues 5 requests, each answered within 300 ms while the "
             "others are held for 1 s; then both held connections are released and served."
-            " Scenario tlsroles (also run under the race detector): one real tcp+tls server, 2..8 TLS clients whose certificates share a serial number and partly an issuer (roles ops/admin/none/malformed, two refused), sequential, concurrent and in parallel; every handler invocation carries the role of its own connection's leaf.",
+            " Scenario tlsroles (also run under the race detector): one real tcp+tls server, 2..8 TLS clients whose certificates share a serial number and partly an issuer (roles ops/admin/none/malformed, two refused), sequential, concurrent and in parallel; every handler invocation carries the role of its own connection's leaf."
+            " Scenario holwrite: a scripted connection whose response write blocks until the write deadline is served by the real server next to a live TCP client whose requests must all be answered within 300 ms.",
     "assumptions": [
         "a handler invocation is one atomic step of the shared handler state (the library adds no lock around handler calls; handlers synchronise themselves)",
         "wall-clock 'does not delay' relies on one goroutine per connection and the Go scheduler: observed by the harness (300 ms bound, up to 3 attempts per case to rule out machine load), not modelled",
